@@ -1,6 +1,6 @@
 (* Props/C14.v — the property theorems of C14 and nothing else.
    C14: transformations are total, pure functions with sound change reports. *)
-From Verif Require Import Base Utf8 Transform TransformProofs Utf8Proofs CaseMap CaseMapProofs.
+From Verif Require Import Base Utf8 Transform TransformProofs Utf8Proofs CaseMap CaseMapProofs WhitespaceProofs.
 
 (* never 'unchanged' when the output differs — for every modelled transformation, every input *)
 Theorem C14_flag_sound : forall t s,
@@ -135,3 +135,14 @@ Theorem C14_case_invalid_byte_refuted : forall tbl, map_rune tbl rune_error = ru
   t_out (t_case tbl [255]) = [239; 191; 189] /\ t_changed (t_case tbl [255]) = true.
 Proof. exact t_case_invalid_byte_refuted. Qed.
 Print Assumptions C14_case_invalid_byte_refuted.
+
+(* ---- whitespace removal is idempotent (both rune-wise transformations, every byte string) ---- *)
+Theorem C14_remove_whitespace_idem : forall s,
+  t_out (t_remove_whitespace (t_out (t_remove_whitespace s))) = t_out (t_remove_whitespace s).
+Proof. exact remove_whitespace_idem. Qed.
+Print Assumptions C14_remove_whitespace_idem.
+
+Theorem C14_compress_whitespace_idem : forall s, wf_bytes s ->
+  t_out (t_compress_whitespace (t_out (t_compress_whitespace s))) = t_out (t_compress_whitespace s).
+Proof. exact compress_whitespace_idem. Qed.
+Print Assumptions C14_compress_whitespace_idem.
